@@ -176,7 +176,8 @@ class Runner:
 
     def report_judge(self, ctx, case, ev, known):
         self.judge_failures += 1
-        case = self.shrink(ctx, case, lambda e: e.judge is not None)
+        sig = (ev.judge or "")[:18]
+        case = self.shrink(ctx, case, lambda e: e.judge is not None and e.judge[:18] == sig)
         ev = self.prop.evaluate(ctx, case)
         k = matches_known(self.prop.id, case, ev, known)
         if k:
